@@ -297,7 +297,10 @@ def ranked_root(rng, n=None, chain=None, cyc=False):
         if nv is not None:
             entries = [(kk, (nv if kk == S(k) else vv)) for kk, vv in entries]
         # make sure the late key really reaches the early one
-        entries = [(kk, (S('${%s}' % k) if kk == S(keys[j]) and j != i else vv)) for kk, vv in entries]
+        # (as its whole value, embedded in text -- so that a container on the cycle is turned into
+        # text --, or from inside a container)
+        link = rng.choice([S('${%s}' % k), S('${%s}' % k), S('t=${%s}' % k), ('l', [S('${%s}' % k)]), ('m', [(S('y'), S('<${%s}>' % k))])])
+        entries = [(kk, (link if kk == S(keys[j]) and j != i else vv)) for kk, vv in entries]
         info['__cycle__'] = (k, keys[j], place)
     rng.shuffle(entries)
     layers = [('m', entries)]
